@@ -3273,7 +3273,13 @@ void ScriptThread::SetThreadState(threadState_e newThreadState)
 
 void ScriptThread::StartTiming(uinttime_t time)
 {
+    // Stop() can end in this thread being deleted (threads waiting on each other in a cycle:
+    // the source we stop waiting on dies with its last waiter, and its own wait was on us)
+    const SafePtr<ScriptThread> self = this;
     Stop();
+    if (!self) {
+        return;
+    }
 
     m_ThreadState = threadState_e::Timing;
 
@@ -3282,7 +3288,11 @@ void ScriptThread::StartTiming(uinttime_t time)
 
 void ScriptThread::StartTiming()
 {
+    const SafePtr<ScriptThread> self = this;
     Stop();
+    if (!self) {
+        return;
+    }
 
     m_ThreadState = threadState_e::Timing;
 
@@ -3313,6 +3323,15 @@ void ScriptThread::ScriptExecuteInternal(const VarListView& data)
     Director.m_CurrentThread = this;
 
     Stop();
+
+    if (!previousThread)
+    {
+        // this thread was deleted by its own Stop() (wait cycle between threads)
+        Director.m_CurrentThread = currentThread;
+        Director.m_PreviousThread = previousThread;
+        Director.ExecuteRunning();
+        return;
+    }
 
     try
     {
@@ -3406,7 +3425,12 @@ void ScriptThread::Stop(void)
 
 void ScriptThread::Wait(uinttime_t time)
 {
+    const SafePtr<ScriptThread> self = this;
     StartTiming(time);
+    if (!self) {
+        return;
+    }
+
     m_ScriptVM->Suspend();
 }
 
